@@ -20,3 +20,37 @@ def _nontrivial(T, vals, desc, spec):
 
 
 modelbased.install(globals(), "C06", ["sort", "argsort"], CFG, nontrivial=_nontrivial)
+
+
+# ---- long groups with many ties (added after the seeded change C06-a was missed: libstdc++'s std::sort is an insertion
+# sort - hence stable - for ranges of at most 16 elements, so instability only shows in groups longer than that)
+from hypothesis import strategies as st  # noqa: E402
+
+_short_strategy = strategy  # noqa: F821  (installed by modelbased.install)
+
+
+@st.composite
+def _long_groups(draw):
+    dt = draw(st.sampled_from(["int64", "float64", "int32", "bool"]))
+    nested = draw(st.booleans())
+    T = ["list", M.prim(dt)] if nested else M.prim(dt)
+    alphabet = [False, True] if dt == "bool" else ([0.0, 1.5, -2.0, float("nan")] if dt == "float64" else [0, 1, 2, 3])
+
+    def long_list():
+        return [draw(st.sampled_from(alphabet)) for _ in range(draw(st.integers(17, 48)))]
+    if nested:
+        vals = [long_list() if draw(st.integers(0, 2)) else [draw(st.sampled_from(alphabet)) for _ in range(draw(st.integers(0, 3)))]
+                for _ in range(draw(st.integers(1, 3)))]
+        axis = draw(st.sampled_from([1, -1, 0]))
+    else:
+        vals = long_list()
+        axis = draw(st.sampled_from([0, -1]))
+    cfg = gen.Cfg(max_depth=2, leaf_dtypes=(dt,), nan=True)
+    desc = draw(gen.encode(T, vals, cfg)) if draw(st.booleans()) else gen.canonical(T, vals)
+    return {"desc": desc, "spec": {"op": draw(st.sampled_from(["argsort", "argsort", "sort"])), "axis": axis, "ascending": draw(st.booleans()),
+                                   "stable": draw(st.sampled_from([True, True, False]))}}
+
+
+def strategy(tier):  # noqa: F811
+    return st.one_of(_short_strategy(tier), _short_strategy(tier), _short_strategy(tier), _short_strategy(tier), _short_strategy(tier),
+                     _short_strategy(tier), _short_strategy(tier), _long_groups())
